@@ -125,7 +125,10 @@ func bigCmds(r *rand.Rand, total int, tag string) [][]string {
 	return out
 }
 
-var faults = []string{"restart-kill", "restart-term", "killconn", "shrink", "pause"}
+// stall-<stage>: drop the replication connections, let the leader acknowledge writes, and hold (or refuse) the
+// follower's reconnect at that stage of the handshake while its caught_up / HEALTHZ answers are sampled
+var stallFaults = []string{"stall-dial", "stall-reject", "stall-server", "stall-md5", "stall-replconf", "stall-aof"}
+var faults = []string{"restart-kill", "restart-term", "killconn", "shrink", "pause", "stall"}
 
 func genScenario(r *rand.Rand, i int, large bool) Scenario {
 	sc := Scenario{Name: fmt.Sprintf("gen-%d", i), Large: large}
@@ -165,6 +168,9 @@ func genScenario(r *rand.Rand, i int, large bool) Scenario {
 	nf := 1 + r.Intn(3)
 	for k := 0; k < nf; k++ {
 		s := Step{Fault: faults[r.Intn(len(faults))], Writes: genCmds(r, 1+r.Intn(8)), Stall: st()}
+		if s.Fault == "stall" {
+			s.Fault = stallFaults[r.Intn(len(stallFaults))]
+		}
 		if large && r.Intn(3) == 0 {
 			s.Writes = append(s.Writes, bigCmds(r, 40<<10+r.Intn(100<<10), "W"+strconv.Itoa(k))...)
 		}
@@ -176,7 +182,8 @@ func genScenario(r *rand.Rand, i int, large bool) Scenario {
 func boundaryScenario(r *rand.Rand, name string) Scenario {
 	return Scenario{Name: name, Init: "boundary", Large: true, PrefixCut: 0.9 + 0.1*float64(r.Intn(2)),
 		Pre: append(genCmds(r, 3), bigCmds(r, 380<<10, "L")...), Post: bigCmds(r, 150<<10+r.Intn(200<<10), "M"),
-		Steps: []Step{{Fault: "follow", Stall: 0.5}, {Fault: "restart-kill", Writes: genCmds(r, 3), Stall: 0.5}}}
+		Steps: []Step{{Fault: "follow", Stall: 0.5}, {Fault: "restart-kill", Writes: genCmds(r, 3), Stall: 0.5},
+			{Fault: "stall-md5", Writes: genCmds(r, 3), Stall: -1}}}
 }
 
 // corpus: the witnesses of finding F9 and hand-written cases, run first on every tier.
@@ -193,6 +200,16 @@ func corpusScenarios() []Scenario {
 			Pre:       [][]string{{"SET", "fleet", "a", "POINT", "2", "2"}},
 			Unrelated: [][]string{{"SETHOOK", "hs", "http://127.0.0.1:1/x", "NEARBY", "fleet", "FENCE", "POINT", "1", "1", "100"}, {"SETCHAN", "cs", "NEARBY", "fleet", "FENCE", "POINT", "1", "1", "100"}},
 			Steps:     []Step{{Fault: "follow", Stall: 0.5}}},
+		{Name: "corpus-stalled-handshake-every-stage", Init: "unrelated",
+			Pre:       [][]string{{"SET", "fleet", "a", "POINT", "2", "2"}, {"SET", "fleet", "b", "POINT", "3", "3"}},
+			Unrelated: [][]string{{"SET", "stale", "x", "POINT", "1", "1"}},
+			Steps: []Step{{Fault: "follow", Stall: -1},
+				{Fault: "stall-dial", Writes: [][]string{{"SET", "fleet", "c", "POINT", "4", "4"}}, Stall: -1},
+				{Fault: "stall-reject", Writes: [][]string{{"SET", "fleet", "d", "POINT", "4", "5"}}, Stall: -1},
+				{Fault: "stall-server", Writes: [][]string{{"DEL", "fleet", "a"}}, Stall: 0.5},
+				{Fault: "stall-replconf", Writes: [][]string{{"SET", "fleet", "e", "POINT", "4", "6"}}, Stall: -1},
+				{Fault: "stall-md5", Writes: [][]string{{"SET", "fleet", "f", "POINT", "4", "7"}}, Stall: -1},
+				{Fault: "stall-aof", Writes: [][]string{{"SET", "fleet", "g", "POINT", "4", "8"}}, Stall: 0.5}}},
 		{Name: "corpus-prefix-all-faults", Init: "prefix", PrefixCut: 0.5,
 			Pre: [][]string{{"SET", "fleet", "a", "FIELD", "speed", "3", "POINT", "2", "2"}, {"SET", "fleet", "b", "POINT", "3", "3"}, {"SET", "zone", "z", "STRING", "a*b"},
 				{"DEL", "fleet", "a"}, {"SETCHAN", "c0", "NEARBY", "fleet", "FENCE", "POINT", "1", "1", "100"}, {"RENAME", "zone", "k"}},
